@@ -140,9 +140,9 @@ def ref_problems(lib, refs):
         b = last[-1].get("digest") or "raised " + str(last[-1].get("exc"))
         if a != b:
             files = diff_files(full[-1], last[-1]) if "digest" in full[-1] and "digest" in last[-1] else \
-                [f"with the earlier renderings: {a[:60]}; without them: {b[:60]}"]
-            hs_viol.append({"desc": byid[o], "twin": d, "render": len(full) - 1, "clause": "prior-render-influences-later-render",
-                            "files": files})
+                [f"{o}: {a[:60]}; {d['id']}: {b[:60]}"]
+            clause = "sibling-network-influences-render" if d.get("twin_kind") == "sibling" else "prior-render-influences-later-render"
+            hs_viol.append({"desc": byid[o], "twin": d, "render": len(full) - 1, "clause": clause, "files": files})
             unusable.pop(o, None)
             unusable.pop(d["id"], None)
     return unusable, hs_viol
@@ -238,6 +238,33 @@ def systematic_traces(lib_by_id, tier):
     fams = {}
     for i in base:
         fams.setdefault(fam(i), []).append(i)
+    grp = {}
+    for i in base:
+        grp.setdefault(group(i), []).append(i)
+    # aborted aggressor: a description's file turns out to be corrupt at its last line (or half-way),
+    # the reading call dies there and the session is abandoned with whatever it had installed;
+    # then the same description, its family neighbour and a group neighbour are built and rendered
+    for a in base:
+        d = lib_by_id[a]
+        fstep = next((k for k, st in enumerate(d["steps"]) if st["s"] == "add_file" or (st["s"] == "new" and st.get("files"))
+                      or (st["s"] == "cli_render" and any(not f.endswith(".py") for f in d.get("files", {})))), None)
+        if fstep is None:
+            continue
+        st = d["steps"][fstep]
+        fname = st["file"] if st["s"] == "add_file" else st["files"][-1][0] if st["s"] == "new" else \
+            sorted(f for f in d["files"] if not f.endswith(".py"))[-1]
+        nlines = len(d["files"][fname].splitlines())
+        fm, gm = fams[fam(a)], [x for x in grp[group(a)] if fam(x) != fam(a)]
+        victims = [a, fm[(fm.index(a) + 1) % len(fm)]] + ([gm[K.hash64(a) % len(gm)]] if gm else [])
+        victims = [v for k, v in enumerate(victims) if v not in victims[:k] or v == a and k == 0]
+        for at in ([nlines] if tier == "quick" else [nlines, max(1, nlines // 2)]):
+            sessions = [a] + victims
+            evs = [{"e": "step", "session": 0} for _ in range(fstep)] + [{"e": "step", "session": 0, "fault": "parse-abort", "at": at}]
+            for k, v in enumerate(victims):
+                evs += [{"e": "step", "session": k + 1} for _ in range(nsteps(v))]
+            traces.append({"sessions": sessions, "kinds": {k: False for k in ("victim-open-fail", "victim-render-enospc",
+                           "aggressor-abort", "foreign", "clock")}, "burst": 0.0,
+                           "clock_start_days": K.hash64("|".join(sessions)) % 700, "events": evs})
     for f in sorted(fams):
         m = fams[f][:6] if tier == "quick" else fams[f][:12]
         if len(m) >= 2:
@@ -339,9 +366,18 @@ def execute(plan_or_trace, lib_by_id, refs, rundir, rng=None, neutralise=None):
             stats["faults"]["abandoned-session"] = stats["faults"].get("abandoned-session", 0) + 1
             log.add("abort", i, s.pc)
             continue
-        if fault == "parse-abort" and st["s"] == "add_file":
+        pa_file = None
+        if fault == "parse-abort":
+            if st["s"] == "add_file":
+                pa_file = st["file"]
+            elif st["s"] == "new" and st.get("files"):
+                pa_file = st["files"][-1][0]
+            elif st["s"] == "cli_render":
+                data = [f for f in sorted(s.desc.get("files", {})) if not f.endswith(".py")]
+                pa_file = data[-1] if data else None
+        if fault == "parse-abort" and pa_file:
             # aggressor: its file is corrupted at line k; the call dies half-way, session abandoned
-            p = os.path.join(s.dir, st["file"])
+            p = os.path.join(s.dir, pa_file)
             lines = open(p).read().splitlines(True)
             k = min(ev.get("at", 1), len(lines))
             lines.insert(k, "%%% corrupted line %%%\n")
@@ -904,6 +940,12 @@ def report(viols, hs_viol, lib_by_id, lib, refs, seed, scratch, first_replay=0):
             K.write_replay(PROP, seed, first_replay + len(replays) - 1, doc)
             out.append(f"violated clause: prior-render-influences-later-render: {h['desc']['id']} alone: its last rendering differs from "
                        f"the same script with the earlier render/to_code/export steps left out, in {h['files'][:5]}")
+        elif h["clause"] == "sibling-network-influences-render":
+            doc["twin"] = h["twin"]
+            K.write_replay(PROP, seed, first_replay + len(replays) - 1, doc)
+            out.append(f"violated clause: sibling-network-influences-render: {h['desc']['id']} alone: its last rendering differs from "
+                       f"that of {h['twin']['id']}, the same script with a second network built from the first one's reactions "
+                       f"and edited before that rendering, in {h['files'][:5]}")
         else:
             out.append(f"violated clause: repeated-render-differs: {h['desc']['id']} alone: render #{h['render']} repeats the previous "
                   f"request with no edit in between but differs in {h['files'][:5]}")
